@@ -343,12 +343,79 @@ def run(tier, seed, out, drv, facts):
                     out.violation(f"real-checker:{mod.__name__.split('_', 1)[-1]}", f"ill-typed call into {mod.__name__} {'raised' if raised else 'did not raise'} TypeCheckError", {"module": mod.__name__})
             fault_histories(out, root, spies, seed)
             discarded_handle_cases(out, root, spies, seed)
+            special_package_cases(out, root, seed)
             if thorough:
                 subprocess_routes(out, root, seed)
         finally:
             sys.path.remove(root)
             for k in [k for k in sys.modules if k.startswith((f"h{seed}_", f"real{seed}_", "spy_"))]:
                 del sys.modules[k]
+
+
+SPECIAL_RUNNER = textwrap.dedent('''
+    import sys, json, importlib
+    root, repo, P = sys.argv[1], sys.argv[2], sys.argv[3]
+    sys.path[:0] = [root, repo]
+    import jaxtyping
+    import spyq
+    res = {}
+    with jaxtyping.install_import_hook([P + "shim"], "spyq.check"):
+        for m in ("shim.plain", "shim.fallback", "shimmer"):
+            importlib.import_module(P + m)
+    res["shim"] = sorted(set(spyq.SEEN)); spyq.SEEN.clear()
+    before = sorted(k for k in sys.modules if k.startswith(P + "common"))
+    hook = jaxtyping.install_import_hook([P + "app", P + "common"], P + "common.checks.checker")
+    res["loaded_by_install"] = sorted(k for k in sys.modules if k.startswith(P + "common") and k not in before)
+    for m in ("app.core", "common.util", "appendix"):
+        importlib.import_module(P + m)
+    hook.uninstall()
+    res["common"] = sorted(set(spyq.SEEN))
+    print(json.dumps(res))
+''')
+
+
+def special_package_cases(out, root, seed):
+    """hooked modules whose definitions all sit inside `try` / `if` blocks (no definition at the top level), and a
+    typechecker that lives INSIDE one of the hooked packages (installing the hook must not import that package behind the
+    hook's back): in a fresh interpreter, every definition of every module beneath the names reaches the typechecker and
+    nothing of the look-alikes does"""
+    P = f"sp{seed}_"
+    body = BODY
+    nested = ("try:\n    import no_such_module_zz\nexcept ImportError:\n    def f(x: int) -> int:\n        return x\nimport sys\n"
+              "if sys.version_info >= (3, 0):\n    class K:\n        def m(self, x: int) -> int:\n            return x\nelse:\n    K = None\n")
+    files = {
+        "spyq.py": "SEEN = []\ndef check(fn, *a, **k):\n    SEEN.append((fn.__module__, getattr(fn, '__qualname__', '?')))\n    return fn\n",
+        P + "shim/__init__.py": "", P + "shim/plain.py": body, P + "shim/fallback.py": nested, P + "shimmer.py": body,
+        P + "common/__init__.py": "from . import checks, util\n", P + "common/checks.py": "from spyq import check as checker\n", P + "common/util.py": body,
+        P + "app/__init__.py": "", P + "app/core.py": body, P + "appendix.py": body,
+    }
+    for rel, src in files.items():
+        path = os.path.join(root, rel)
+        os.makedirs(os.path.dirname(path), exist_ok=True)
+        with open(path, "w") as fh:
+            fh.write(src)
+    r = subprocess.run([PY, "-c", SPECIAL_RUNNER, root, REPO, P], capture_output=True, text=True, timeout=300, env=dict(os.environ, PYTHONDONTWRITEBYTECODE="1"))
+    try:
+        got = json.loads(r.stdout.strip().splitlines()[-1])
+    except Exception:  # noqa: BLE001
+        out.violation("special-packages:run-failed", f"the run failed: {r.stderr[-400:]}", {"special_packages": True})
+        return
+    defs = lambda m: [[P + m, "f"], [P + m, "K.m"]]  # noqa: E731  (the typechecker is handed the functions; classes are walked)
+    want_shim = sorted(defs("shim.plain") + defs("shim.fallback"))
+    want_common = sorted(defs("app.core") + defs("common.util"))
+    out.case(("special-packages", "nested-only"), True, sample={"observed": got.get("shim")})
+    out.case(("special-packages", "checker-inside"), True, sample={"observed": got.get("common"), "loaded_by_install": got.get("loaded_by_install")})
+    if got.get("shim") != want_shim:
+        missing = [d for d in want_shim if d not in got.get("shim", [])]
+        extra = [d for d in got.get("shim", []) if d not in want_shim]
+        out.violation("special-packages:nested-only", f"hook on {P}shim: definitions that did not reach the typechecker {missing}, definitions outside the package that did {extra} "
+                      f"({P}shim.fallback defines its function and class inside try / if blocks only)", {"special_packages": "nested-only"})
+    if got.get("common") != want_common or got.get("loaded_by_install"):
+        missing = [d for d in want_common if d not in got.get("common", [])]
+        extra = [d for d in got.get("common", []) if d not in want_common]
+        out.violation("special-packages:checker-inside", f"hook on {P}app and {P}common with the typechecker {P}common.checks.checker: installing the hook itself loaded "
+                      f"{got.get('loaded_by_install')} (before the hook was in force), definitions that did not reach the typechecker {missing}, others that did {extra}",
+                      {"special_packages": "checker-inside"})
 
 
 def subprocess_routes(out, root, seed):
